@@ -314,6 +314,9 @@ func TestC14(t *testing.T) {
 						hasA = true
 					}
 				}
+				if n%3 == 0 {
+					rl.ErrorHandler = []config.MechanismConfig{{"error_handler": "realdef"}}
+				}
 				expectReject := !ordered || (!hasA && !dv.present)
 				err := load(rl)
 				r.Case(fmt.Sprintf("%s|%v|order|%v", mode, dv, seq), true)
@@ -357,14 +360,45 @@ func TestC14(t *testing.T) {
 				{"condition that is not boolean", []config.MechanismConfig{{"authenticator": "anon"}, {"authorizer": "realallow", "if": "1 + 1"}}, nil},
 			}
 			for _, b := range bad {
-				n++
-				id := fmt.Sprintf("b%d", n)
-				rl := rconfig.Rule{ID: id, Matcher: rconfig.Matcher{Routes: []rconfig.Route{{Path: "/" + id}}}, Backend: &rconfig.Backend{Host: "127.0.0.1:1"}, Execute: b.ex, ErrorHandler: b.oe}
-				err := load(rl)
-				r.Case(fmt.Sprintf("%s|%v|bad|%s", mode, dv, b.name), true)
-				r.Count("expected_rejections", 1)
-				if err == nil {
-					r.Violation("malformed-rule-accepted", b.name+" was accepted", c14Case{mode, defDesc, &rl, "load result", "rejected: " + b.name, "accepted"})
+				// each malformed execute list also together with a well-formed error pipeline of the rule's own
+				for _, ownOE := range []bool{false, true} {
+					oe, name := b.oe, b.name
+					if ownOE {
+						if b.oe != nil {
+							continue
+						}
+						oe, name = []config.MechanismConfig{{"error_handler": "realdef"}}, b.name+" (rule has a valid on_error)"
+					}
+					n++
+					id := fmt.Sprintf("b%d", n)
+					rl := rconfig.Rule{ID: id, Matcher: rconfig.Matcher{Routes: []rconfig.Route{{Path: "/" + id}}}, Backend: &rconfig.Backend{Host: "127.0.0.1:1"}, Execute: b.ex, ErrorHandler: oe}
+					err := load(rl)
+					r.Case(fmt.Sprintf("%s|%v|bad|%s", mode, dv, name), true)
+					r.Count("expected_rejections", 1)
+					if err == nil {
+						r.Violation("malformed-rule-accepted", name+" was accepted", c14Case{mode, defDesc, &rl, "load result", "rejected: " + name, "accepted"})
+					}
+					// the same rule inside a rule set whose other rules are fine, in front of them and between them
+					if !ownOE {
+						good := func(k int) rconfig.Rule {
+							gid := fmt.Sprintf("%s-good%d", id, k)
+							return rconfig.Rule{ID: gid, Matcher: rconfig.Matcher{Routes: []rconfig.Route{{Path: "/" + gid}}}, Backend: &rconfig.Backend{Host: "127.0.0.1:1"},
+								Execute: []config.MechanismConfig{{"authenticator": "anon"}, {"finalizer": "noop"}}}
+						}
+						bad2 := rl
+						bad2.ID = id + "-in-set"
+						bad2.Matcher = rconfig.Matcher{Routes: []rconfig.Route{{Path: "/" + bad2.ID}}}
+						for k, rules := range [][]rconfig.Rule{{bad2, good(1)}, {good(2), bad2, good(3)}} {
+							src := fmt.Sprintf("src-%s-set%d", id, k)
+							err := a.Proc.OnCreated(&rconfig.RuleSet{Version: "1alpha4", Name: src, MetaData: rconfig.MetaData{Source: src, Hash: []byte(src)}, Rules: rules})
+							r.Case(fmt.Sprintf("%s|%v|bad-in-set|%s|%d", mode, dv, name, k), true)
+							r.Count("expected_rejections", 1)
+							if err == nil {
+								r.Violation("malformed-rule-accepted", "a rule set containing the malformed rule ("+name+") besides well-formed ones was accepted",
+									c14Case{mode, defDesc, &bad2, "load result of a rule set with " + fmt.Sprint(len(rules)) + " rules", "rejected: " + name, "accepted"})
+							}
+						}
+					}
 				}
 			}
 			// ---- one id, several kinds: what a step refers to depends on its kind, not on what was loaded before ----
